@@ -29,9 +29,19 @@ func VH_C20_snapshot() {
 	deleted := map[string]bool{}
 	updated := map[string]bool{}
 	later := map[string]bool{} // stored after the evaluation
+	gone := map[string]bool{}  // stored after the evaluation and deleted again
 	nw := vLen("writes", 1, vBound("W", 1))
 	for w := 0; w < nw; w++ {
-		switch vChoice("mut", 3) {
+		switch vChoice("mut", 4) {
+		case 3: // empty the collection in one call
+			vAssert("C20.mut.deleteall", db.DeleteAll(&vObj{}) == nil)
+			for i := range rows {
+				deleted[rows[i].uuid] = true
+			}
+			for u := range later {
+				delete(later, u) // gone again: may neither be returned nor expected to survive
+				gone[u] = true
+			}
 		case 0: // insert a new object
 			o := vhNewObj()
 			err := db.InsertOrUpdate(o)
